@@ -17,8 +17,6 @@ RULE = ("correspondence: one driver line per call of ContractAPI.for_* / info_fo
         "(info, script(), address())), ContractAPI.for_address, Key/BIP49Node/BIP84Node.address, per network; distinct = distinct "
         "line; non-trivial = the model returns a value other than None/exception")
 PARTIAL = [
-    "C08_classification_faithful holds with the exclusion `multisig with more than 16 keys` (known finding multisig-n-over-16); "
-    "the full statement is refuted in Props/C08.v by a 17-key witness",
     "the three Groestlcoin networks (GRS, GRSRT, TGRS) are in the generated table but outside the theorems and the "
     "correspondence: their Base58 encoder needs the absent groestlcoin_hash package (ImportError) and the symbol files "
     "replace parse.address by a function returning None; a direct check records exactly that behaviour",
@@ -257,7 +255,7 @@ def classifier_scripts(rng, tier):
     for nk in (17, 18, 20, 30):
         ks = keys_for(rng, nk, 33)
         for m in (1, 15):
-            out.append(spec_multisig(m, ks, 0x50 + nk))                # closing opcode beyond OP_16 (known finding)
+            out.append(spec_multisig(m, ks, 0x50 + nk))                # closing opcode beyond OP_16 (former finding, fixed)
     # every one-byte script, a sample of two-byte scripts
     out += [bytes([o]) for o in range(256)]
     for a in (0x00, 0x01, 0x14, 0x20, 0x4c, 0x4d, 0x4e, 0x51, 0x60, 0x6a, 0x76, 0xa9, 0xac, 0xae):
@@ -713,6 +711,7 @@ def prop_cases(rng, tier):
     for sym in SYMS[::4] + ["BTC"]:
         for s in own_strings(rng, NETS[sym], "quick"):
             yield PropCase("codec_premises", {"string": s}, (lambda s=s: chk_codec_b58_dec(s) or chk_codec_seg_parse(s)))
+    yield PropCase("classify", {"script": "regression:multisig17"}, _regress_multisig17)
     for sym in sorted(NONSTD):
         yield PropCase("groestl_table_only", {"net": sym}, (lambda sym=sym: chk_groestl(sym)))
 
@@ -725,6 +724,8 @@ def replay_input(check, inp):
     if check == "cross":
         return chk_cross(inp["a"], inp["kind"], bytes.fromhex(inp["payload"]), inp["b"])
     if check == "classify":
+        if inp["script"].startswith("regression:"):
+            return _regress_multisig17()
         return chk_classify(bytes.fromhex(inp["script"]))
     if check == "key":
         return chk_key(inp["net"], int(inp["se"], 16), inp["compressed"])
@@ -740,18 +741,19 @@ def replay_input(check, inp):
 
 
 def classify(pc, r):
-    if pc.name == "classify" and r.get("kind") == "classification-not-faithful" and r.get("type") == "multisig" \
-            and r.get("n_keys", 0) > 16:
-        return "multisig-n-over-16"
     return None
 
 
-def _replay_multisig17():
+def _regress_multisig17():
+    """former finding multisig-n-over-16 (fixed in /repo by ed0c18d): a closing opcode beyond OP_16 is no key count"""
     ks = [bytes([2]) + bytes([i + 1]) * 32 for i in range(17)]
-    return chk_classify(spec_multisig(1, ks, 0x61))
+    s = spec_multisig(1, ks, 0x61)
+    if C.info_for_script(s)["type"] != "unknown":
+        return {"kind": "classification-not-faithful", "type": C.info_for_script(s)["type"], "script": s.hex(), "n_keys": 17}
+    return chk_classify(s)
 
 
-KNOWN_REPLAYS = {"multisig-n-over-16": _replay_multisig17}
+KNOWN_REPLAYS = {}
 
 
 def search(rng, tier, disagreements, known_ids):
